@@ -5,6 +5,7 @@
    before it, and that key carries the same value because every key in between
    was dropped for having its predecessor's value. *)
 From Slim Require Import Base Keys Model QueryProofs SearchProofs.
+From Slim Require Import BitmapRank Bits Msg MsgProofs.
 
 Theorem C02_rangeget_indexed :
   forall (ropt : raw_opt) keys vals T i k,
@@ -25,3 +26,21 @@ Example C02_example :
             get T ["098"%byte] = Ok NotFound /\
             rangeget T ["098"%byte] = Ok (Found (Some ["001"%byte])).
 Proof. eexists. repeat split; vm_compute; reflexivity. Qed.
+
+(* ---- the same through the bit-level message (sub-check L3 ties Msg.v to the code) ----
+   RangeGet run the way the Go code runs it over the rank/select bitmaps of the message of the
+   built trie (Msg.mrangeget: searchID over getNode / getLeftChildID / Rank128, leftMost /
+   rightMost, then getLeaf + VLenArray.get) maps every indexed key to its range value *)
+Theorem C02_rangeget_indexed_message :
+  forall (ropt : raw_opt) keys vals T m vs i k fuel,
+    build (normalize ropt) keys vals = Ok T -> encode_trie T = Val m -> init_vars m = Val vs ->
+    trie_height T <= fuel ->
+    nth_error keys i = Some k ->
+    match vals with Some vs => length vs = length keys | None => True end ->
+    exists v, mrangeget (S fuel) m vs k = Ok (Found v) /\ val_bytes v = supplied vals i /\ (vals = None -> v = None).
+Proof.
+  intros ropt keys vals T m vs i k fuel Hb Em Ev Hf Hk Hl.
+  rewrite (mrangeget_rangeget _ _ _ _ _ _ _ _ Hb Em Ev Hf).
+  exact (rangeget_indexed (normalize ropt) keys vals T i k Hb Hk Hl).
+Qed.
+Print Assumptions C02_rangeget_indexed_message.
